@@ -3,6 +3,7 @@ import Hcl.Graph.TopoSort
 import Hcl.Model.GraphExec
 import Driver.Decode
 import Hcl.Spec.Machine
+import Hcl.Spec.Accept
 
 /-! Line-protocol driver: one request S-expression per input line, one answer line per request.
     Answer format: `M <model result> ;; S <spec result>`. -/
@@ -98,6 +99,11 @@ def handleProg (fields : List SExp) : String :=
           | .ok s0 =>
             let (states, fin) := stepN fl p (natField fields "cycles" 1) s0 []
             "ok" ++ String.join (states.map (" " ++ ·)) ++ " end=" ++ fin
+      let fs := Spec.faults fl cls.isLower cls.isUpper stmts
+      if !fs.isEmpty then
+        let names := sortStrings (fs.map fun f => (((repr f.cls).pretty.splitOn ".").getLast!) ++ ":" ++ f.name)
+        s!"M {model} ;; S rej {" ".intercalate names}"
+      else
       let d := Spec.design stmts
       let image : List (Nat × Nat) := (pairList (field fields "mem")).filterMap fun p =>
         match p.1.toNat?, p.2.toNat? with | some a, some b => some (a, b) | _, _ => none
